@@ -82,11 +82,11 @@ prop('C04',
 prop('C05',
      title='Local time follows the zone data: offsets, gaps and folds',
      verus=['tz', 'tzrule'],
-     kani=['vk_tzstring_offset', 'vk_tzstring_rule_time', 'vk_tzstring_rule_time_extended', 'vk_tzrule_window_logic'],
+     kani=['vk_tzstring_offset', 'vk_tzstring_rule_time', 'vk_tzstring_rule_time_extended', 'vk_tzrule_window_logic', 'vk_tzrule_local_classification'],
      bounded=['vk_tz_find_type_bounded', 'vk_tz_from_local_classify_bounded', 'vk_tz_validate_bounded', 'vk_tzstring_rule_day_bounded'],
      twin=['tz'],
      uncovered=['POSIX TZ rule, instant lookup: the three-year interval logic is proved for every table of transition instants under the data hypothesis that starts and ends alternate (vk_tzrule_window_logic); rules whose start/end order flips between neighbouring years are outside it',
-                'POSIX TZ rule, wall-clock lookup: safety, result shape and earliest-first ordering proved; the exact gap/fold classification at the boundary seconds is covered by the tz twin only',
+                'POSIX TZ rule, wall-clock lookup: the exact None/Single/Ambiguous classification is proved for every table of transition instants under the data hypothesis that the two transitions of the year are separated and in the order their months say (vk_tzrule_local_classification); the two boundary seconds are excepted (as in the property text)',
                 'Local / Cache::offset glue (reads environment and file system)', 'zones with leap-second records', 'zoneinfo database enumeration (configurations)',
                 'validate() accepts every well-formed table (the converse direction) is only bounded (<= 2 transitions)'],
      text='Verus proves, for transition tables of ANY length (validate() returning Ok implies the well-formedness used below -- proved on its real text; hypothesis tz_ordered on the zone data: the wall-clock windows disturbed by '
